@@ -2,6 +2,7 @@
 import ast
 
 from .. import AnalysisError
+from ..astutil import loop_carried_reads
 from ..callgraph import callgraph
 from ..effects import strip_epoch
 from ..index import walk_local, ClassInfo
@@ -180,7 +181,7 @@ def rule_b(ctx):
                 gu.params()[1] in (ast.unparse(n.test.left), ast.unparse(n.test.comparators[0])):
             other = n.test.comparators[0] if ast.unparse(n.test.left) == gu.params()[1] else n.test.left
             ft = ast.unparse(other).split('.')[-1]
-            from ..astutil import resolve_temp
+            from ..astutil import loop_carried_reads, resolve_temp
             for s in n.body:
                 if isinstance(s, ast.Return) and s.value is not None and not isinstance(
                         resolve_temp(gu.node, s.value), ast.Name):
@@ -414,6 +415,13 @@ def rule_c(ctx):
                                       'deserialized payload' % fmt_term(val)[:70])
     if ok and seen != {'meta', 'raw', 'typed'}:
         ok, why = False, 'the collector has no path for %s parameters' % sorted({'meta', 'raw', 'typed'} - seen)
+    # the paths above are those of one iteration entered from the function's start: what a later parameter receives is
+    # the same only if nothing is carried from one iteration to the next
+    loops = [n for n in walk_local(ca.node) if isinstance(n, (ast.For, ast.AsyncFor))]
+    for lp in loops:
+        for name, node in loop_carried_reads(lp):
+            ok, why = False, ('line %d: `%s` is read in an iteration that has not assigned it - a parameter receives '
+                              'what was computed for an earlier one' % (node.lineno, name))
     rep.add('C19.c', 'RequestRouter._collect_route_arguments / metadata vs payload parameters', ca, ok,
             'named composite_metadata or annotated CompositeMetadata -> the metadata; annotated Payload or not '
             'annotated -> the raw payload; any other annotation -> payload_deserializer(annotation, payload)'
